@@ -76,6 +76,8 @@ def gen_cases(ctx, wu, rng, n_spec, n_seed, n_mal):
     for _ in range(n_spec):
         spec = uc.Spec(rng)
         ds, encoding = uc.pick_config(rng)
+        if spec.user is not None and rng.random() < 0.35:
+            encoding = rng.choice(['latin-1', 'shift_jis', 'cp1252', 'utf-8'])
         if encoding != 'utf-8':
             ds = 'http'
         g = [uc.Case(spec.render(rng, canonical=True), ds, encoding, 'spec-canonical'),
